@@ -23,9 +23,10 @@ PROPERTY = "C28"
 TECHNIQUE = "exhaustive enumeration of the program tree to a depth bound on the real connection, replicated in separate interpreter processes with different hash seeds and compared node by node"
 RULE = ("one evaluation = one program (path in the call tree) executed in one process; non-trivial = the program's last step raised or "
         "returned events; every node is compared across all seeds")
-BOUNDS = {"quick": "all programs of depth <= 3 over the alphabet, both roles, 6 hash seeds; isolation layer: programs of depth <= 2, two passes in one process",
+BOUNDS = {"quick": "all programs of depth <= 3 over the alphabet, both roles, 6 hash seeds + one process with skewed clocks; isolation layer: programs of depth <= 2, two passes in one process",
           "thorough": "all programs of depth <= 4, both roles, 6 hash seeds"}
-ASSUMPTIONS = ["hash seeds are sampled (K of 2^32): 0,1,2,3 and two derived from VERIF_SEED; wall-clock and process identity vary freely between the K runs"]
+ASSUMPTIONS = ["one more process runs with hash seed 0 and clocks (time.time / monotonic / perf_counter) that advance an hour per reading",
+               "hash seeds are sampled (K of 2^32): 0,1,2,3 and two derived from VERIF_SEED; wall-clock and process identity vary freely between the K runs"]
 
 
 def alphabet(client):
@@ -81,6 +82,18 @@ def alphabet(client):
         rx("rx-req3-resp-pseudo", wire.headers(3, sb(H.REQ + [(b":status", b"200")])))
         rx("rx-trailers-pseudo", wire.headers(1, sb([(b":status", b"200"), (b":path", b"/"), (b":authority", b"a")]), es=True))
         rx("rx-prio", wire.priority(1, 3, 9, True))
+    # a header block left open, then frames that may not interrupt it (several flags set)
+    rx("rx-headers-open-block", wire.headers(1, sb(H.REQ if not client else H.RESP)[:4], eh=False))
+    rx("rx-data1-padded-es", wire.data(1, b"ab", es=True, pad=1))
+    rx("rx-ping-ack", wire.ping(b"abcdefgh", ack=True))
+    # one step that leaves stream 1 closed by OUR END_STREAM (the peer ended first) and still in the stream table
+    if client:
+        A.append(("exchange1-we-end-last", ("seq", [("call", "send_headers", (1, H.REQ), {}),
+                                                   ("rx", wire.headers(1, sb(H.RESP), es=True).serialize()),
+                                                   ("call", "end_stream", (1,), {})])))
+    else:
+        A.append(("exchange1-we-end-last", ("seq", [("rx", wire.headers(1, sb(H.REQ), es=True).serialize()),
+                                                   ("call", "send_headers", (1, H.RESP), {"end_stream": True})])))
     rx("rx-ack", wire.settings([], ack=True))
     rx("rx-data1", wire.data(1, b"abc", pad=2))
     rx("rx-rst1", wire.rst_stream(1, 2))
@@ -101,6 +114,9 @@ def _digest(*parts):
 
 
 def _step(conn, act):
+    if act[0] == "seq":
+        parts = [_step(conn, a) for a in act[1]]
+        return _digest(*[p[0] for p in parts]), any(p[1] for p in parts)
     ev_reprs = []
     exc = None
     ret = None
@@ -127,14 +143,34 @@ def _step(conn, act):
         exc = (type(e).__name__, repr(e.args), str(e))
     out = conn.data_to_send()
     try:
-        acc = (conn.open_outbound_streams, conn.open_inbound_streams, dict(conn.local_settings), dict(conn.remote_settings))
+        # read on a copy: reading the open-stream counters makes the library drop closed streams from its table, and the
+        # programs must be able to reach states in which they are still there
+        c2 = pickle.loads(pickle.dumps(conn))
+        acc = (c2.open_outbound_streams, c2.open_inbound_streams, dict(c2.local_settings), dict(c2.remote_settings))
     except Exception as e:  # noqa: BLE001
         acc = repr(e)
     return _digest(out, ev_reprs, exc, repr(ret), repr(acc)), bool(exc or ev_reprs)
 
 
+def _skew_clocks():
+    """Every reading of a clock is an hour later than the one before: a library whose behaviour depends on elapsed
+    wall-clock time behaves differently under this process than under the others."""
+    import time
+    state = {"t": 1.0e9}
+
+    def tick(*a):
+        state["t"] += 3600.0
+        return state["t"]
+    for name in ("time", "monotonic", "perf_counter"):
+        setattr(time, name, tick)
+    for name in ("time_ns", "monotonic_ns", "perf_counter_ns"):
+        setattr(time, name, lambda *a: int(tick() * 1e9))
+
+
 def worker_main(role, depth, first_shard, nshards, outpath):
     """Enumerate the program tree (DFS, clone per node); write path->digest."""
+    if os.environ.get("C28_CLOCK"):
+        _skew_clocks()
     sys.path.insert(0, os.path.dirname(os.path.dirname(os.path.dirname(os.path.abspath(__file__)))))
     from h2mc import harness as H
     client = role == "client"
@@ -265,9 +301,12 @@ def _run_all(depth, seeds, roles=("server", "client"), nshards=3, only=None):
     for role in roles:
         for shard in range(nshards):
             for s in seeds:
-                out = os.path.join(tmpd, "%s-%d-%d.json" % (role, shard, s))
+                out = os.path.join(tmpd, "%s-%d-%s.json" % (role, shard, s))
                 env = dict(os.environ)
-                env["PYTHONHASHSEED"] = str(s)
+                env["PYTHONHASHSEED"] = "0" if s == "clock" else str(s)
+                env.pop("C28_CLOCK", None)
+                if s == "clock":
+                    env["C28_CLOCK"] = "1"       # hash seed 0 again, but every clock reading is an hour after the last
                 env["PYTHONPATH"] = here
                 code = ("import sys; sys.path.insert(0, %r); from h2mc import env; from h2mc.checks import c28; "
                         "c28.worker_main(%r, %d, %d, %d, %r)" % (here, role, depth, shard, nshards, out))
@@ -276,7 +315,7 @@ def _run_all(depth, seeds, roles=("server", "client"), nshards=3, only=None):
     for role, shard, s, out, p in procs:
         rc = p.wait()
         if rc != 0:
-            raise RuntimeError("c28 worker failed rc=%d (%s shard %d seed %d)" % (rc, role, shard, s))
+            raise RuntimeError("c28 worker failed rc=%d (%s shard %d seed %s)" % (rc, role, shard, s))
         results[(role, shard, s)] = json.load(open(out))
         os.unlink(out)
     os.rmdir(tmpd)
@@ -340,7 +379,10 @@ def replay(rec):
     outs = []
     for s in case["seeds"]:
         env = dict(os.environ)
-        env["PYTHONHASHSEED"] = str(s)
+        env["PYTHONHASHSEED"] = "0" if s == "clock" else str(s)
+        env.pop("C28_CLOCK", None)
+        if s == "clock":
+            env["C28_CLOCK"] = "1"
         code = ("import sys; sys.path.insert(0, %r); from h2mc import env, harness as H; from h2mc.checks import c28; "
                 "A = c28.alphabet(%r); c = H.new_conn(%r); d = [c28._step(c, A[i][1])[0] for i in %r]; print(d[-1])"
                 % (here, case["role"] == "client", case["role"] == "client", case["path"]))
@@ -354,13 +396,15 @@ def replay(rec):
 
 def run(ctx):
     depth = 3 if ctx.tier == "quick" else 4
-    seeds = [0, 1, 2, 3, 1000 + ctx.seed, (2 ** 31 - 1 - 7 * ctx.seed) % (2 ** 32)]
+    seeds = [0, 1, 2, 3, 1000 + ctx.seed, (2 ** 31 - 1 - 7 * ctx.seed) % (2 ** 32), "clock"]
     roles = ("server", "client")
     nshards = 3 if ctx.tier == "quick" else 5
     results = _run_all(depth, seeds, roles, nshards)
     viols, programs, nontrivial, samples = compare(results, seeds, roles, nshards)
-    for v in viols.values():
+    # (each reported violation is re-established by re-running its shard of the tree: the shortest few are enough)
+    for v in sorted(viols.values(), key=lambda v: (len(v["case"]["program"]), v["case"]["program"]))[:6]:
         ctx.violation(v)
+    ctx.notes["nondeterministic_signatures"] = len(viols)
     ctx.fanouts.append({"harness": "c28-tree-depth%d" % depth, "evaluations": programs * len(seeds),
                         "outcomes": {"programs": programs, "seeds": len(seeds), "programs-with-events-or-exception": nontrivial},
                         "nontrivial": nontrivial, "states": programs,
